@@ -327,6 +327,12 @@ impl<K: Hash + Eq, V, E: OnEvictCallback, S: BuildHasher> RawLRU<K, V, E, S> {
                 PutResult::Update(v)
             }
             None => {
+                // a cache resized to capacity 0 cannot hold anything: hand the pair straight back
+                // instead of trying to recycle the (non-existent) LRU node
+                if self.cap == 0 {
+                    return PutResult::Evicted { key: k, value: v };
+                }
+
                 let (replaced, node) = self.replace_or_create_node(k, v);
                 let node_ptr: *mut EntryNode<K, V> = node.as_ptr();
 
